@@ -346,9 +346,12 @@ PROPS = {
                     "reasons, prunes as selected by the retain arguments or (symbolic) options. polynomial_from_attributes: result "
                     "is fresh, well-formed (WF), carries the post-processed rows/names, requested dtype, every coefficient written "
                     "(both compiled and numpy path, and the empty case). clean_attributes: cannot fail on a WF polynomial under any "
-                    "option setting and keeps the abstract value. Regeneration from raw view / todict and WF of API results: "
-                    "bounded run-time checks.",
-        not_decided=["regeneration through polynomial(raw structured array) (bounded)", "compose_polynomial_array, sympy input (bounded)"],
+                    "option setting and keeps the abstract value. Regeneration: polynomial(todict()) and polynomial(raw structured view, "
+                    "names) are proved to hand exactly the stored exponent rows (field names decoded with the KEY_OFFSET they were "
+                    "encoded with, every field, in field order) and coefficient columns to polynomial_from_attributes; equality of the "
+                    "regenerated object under == and WF of the results of the whole public API: bounded run-time checks.",
+        not_decided=["compose_polynomial_array (nested lists of polynomials), sympy input (bounded)",
+                     "WF of the results of every public function (bounded catalogue)"],
     ),
     "C07": dict(
         level="other",
